@@ -1,4 +1,5 @@
 import HexVerif.Lemmas.AsmDebug
+import HexVerif.Lemmas.SimLoadFile
 /-
   C15 — trace and debug symbols report what is actually executing.
   Models: `Asm.emitGo` (debug table collection in hexasm.hpp `emitProgramBin`), `Sim.load`'s
@@ -68,5 +69,19 @@ theorem C15_line (p q : Proc) (w : Word) (ht : p.tracing = true)
 theorem C15_offset_zero_at_entry (name : String) (off : Word) :
     off - mapLookup name [(name, off)] = 0 := by
   simp [mapLookup]
+
+/-- **(a) continued: the table reaches the simulator.**  hexsim's `load()` applied to the file the
+    assembler writes puts the image words into memory and reads back exactly the assembler's
+    symbol table - every FUNC/PROC name with its byte offset, in the same order (so
+    `C15_symbols` / `C15_symbols_sorted` speak about the table the trace looks names up in).
+    Side conditions: the image fits the memory, fewer than 2^31 symbols, no NUL byte in a name. -/
+theorem C15_loader_roundtrip (p : List (Dir × Loc)) (img : Image) (mem0 : Mem) (hp : ParsedOk (p.map (·.1)))
+    (hn : p.length < 2 ^ 26) (h : assemble p = .ok (some img)) (hfit : img.bytes.length ≤ 4 * memWords)
+    (hd : img.debug.length < 2 ^ 31) (hnul : ∀ e ∈ img.debug, (0 : Byte) ∉ Sim.nameBytes e.1) :
+    Sim.loadParts mem0 (fileBytes img) =
+      some (mem0.loadWords (wordsOfBytes img.bytes), Sim.loadedSymbols img.debug) := by
+  obtain ⟨h1, h2⟩ := assemble_size p img hp hn h
+  exact Sim.loadParts_fileBytes mem0 img h1 h2 hfit hd hnul
+
 
 end Hex.Properties.C15
